@@ -1052,3 +1052,40 @@ Proof.
   - pose proof (on_recv_connecting_size _ _ _ _ _ Ea). rewrite P2, K5 in *. lia.
   - injection Ea as <- _. rewrite P2, K5. lia.
 Qed.
+
+(* ------------------------------------------------------------------ the predicate is not vacuous: what it rejects *)
+Definition obs0 (streams : list (skey * bool)) (syns : list syn) : dobs :=
+  {| ob_streams := streams; ob_syns := syns; ob_na := false; ob_ch := 0; ob_ct := 0 |}.
+Definition k551 : skey := {| k_addr := 5; k_conn := 51 |}.
+Definition k661 : skey := {| k_addr := 6; k_conn := 61 |}.
+Definition m_data51 : dmsg := {| dm_type := ST_DATA; dm_conn := 51; dm_seq := 1; dm_ack := 0 |}.
+Definition m_syn50 : dmsg := {| dm_type := ST_SYN; dm_conn := 50; dm_seq := 1000; dm_ack := 0 |}.
+
+Example step_ok_rejects :
+  let two := [(k551, true); (k661, true)] in
+  let mk pre rsts fwd post := {| so_pre := pre; so_rsts := rsts; so_fwd := fwd; so_post := post |} in
+  (* accepted: data for (5,51) forwarded to (5,51) *)
+  c10_disp_step_ok 5 (Some m_data51) (mk (obs0 two []) 0 [k551] (obs0 two [])) = true /\
+  (* forwarded to another connection *)
+  c10_disp_step_ok 5 (Some m_data51) (mk (obs0 two []) 0 [k661] (obs0 two [])) = false /\
+  (* garbage forwarded *)
+  c10_disp_step_ok 5 None (mk (obs0 two []) 0 [k551] (obs0 two [])) = false /\
+  (* another connection's entry evicted *)
+  c10_disp_step_ok 5 (Some m_data51) (mk (obs0 two []) 0 [k551] (obs0 [(k551, true)] [])) = false /\
+  (* another connection's entry killed *)
+  c10_disp_step_ok 5 (Some m_data51) (mk (obs0 two []) 0 [k551] (obs0 [(k551, true); (k661, false)] [])) = false /\
+  (* garbage creates an entry *)
+  c10_disp_step_ok 5 None (mk (obs0 [] []) 0 [] (obs0 [(k551, true)] [])) = false /\
+  (* a SYN creates an entry under a key that is not (addr, id + 1) *)
+  c10_disp_step_ok 5 (Some m_syn50) (mk (obs0 [] []) 0 [] (obs0 [(k661, true)] [])) = false /\
+  (* ... under (addr, id + 1): accepted *)
+  c10_disp_step_ok 5 (Some m_syn50) (mk (obs0 [] []) 0 [] (obs0 [(k551, true)] [])) = true /\
+  (* data queued as if it were a SYN *)
+  c10_disp_step_ok 5 (Some m_data51) (mk (obs0 [] []) 0 [] (obs0 [] [hk_syn_of 5 m_data51])) = false /\
+  (* a SYN queues some other request *)
+  c10_disp_step_ok 5 (Some m_syn50) (mk (obs0 [] []) 0 [] (obs0 [] [hk_syn_of 6 m_syn50])) = false /\
+  (* a reset for something that is not a SYN *)
+  c10_disp_step_ok 5 (Some m_data51) (mk (obs0 [] []) 1 [] (obs0 [] [])) = false /\
+  (* two resets for one SYN *)
+  c10_disp_step_ok 5 (Some m_syn50) (mk (obs0 [] []) 2 [] (obs0 [] [])) = false.
+Proof. vm_compute. repeat split. Qed.
